@@ -134,6 +134,13 @@ static void h_rle_enc(const vcase *c) {
     out_str("frame", n <= max ? frame_after(&g, n) : "dirty");
     out_blob("bytes", g.p, n <= max ? n : max);
     out_meta("meta", &meta);
+    if (n > max) {
+        /* the encoder overflowed the advertised size: nothing further is meaningful */
+        out_str("overflow", "1");
+        gbuf_free(&g);
+        free(v);
+        return;
+    }
     /* destination of exactly the predicted size (exact predictor); the
      * header format has no predictor of its own: size + tagged length of count */
     size_t exact = hdr ? size + varintTaggedLen(count) : size;
